@@ -494,6 +494,11 @@ def handleChan (fs : List (String × String)) : String :=
   let ok := want == got
   s!"{if ok then "agree" else "DISAGREE"} {if ok then "ok" else s!"BAD:event-read-from-the-channel-does-not-carry-the-data-of-its-moment@want={want},got={got}"} nt={if (want.splitOn ",").length ≥ 3 then 1 else 0} br=chan "
 
+/-- C18 (full-queue leg): alive gossip from a disallowed source is ignored also when the handoff queue is full -/
+def handleFull (fs : List (String × String)) : String :=
+  let adm := (getNat fs "admitted").getD 0
+  s!"{if adm == 0 then "agree" else "DISAGREE"} {if adm == 0 then "ok" else s!"BAD:alive-from-disallowed-source-admitted-while-the-handoff-queue-was-full@{adm}-of-{getD fs "outsiders" "?"}"} nt=1 br=full "
+
 def handleConc (fs : List (String × String)) : String :=
   let overlap := (getNat fs "overlap").getD 0
   let calls := (getNat fs "callbacks").getD 0
@@ -538,6 +543,7 @@ def handle (prop kind : String) (fs : List (String × String)) : String :=
   | "src" => handleSrc fs
   | "conc" => handleConc fs
   | "parse" => handleParse fs
+  | "full" => handleFull fs
   | "chan" => handleChan fs
   | "gossip" => handleGossip fs
   | "stir" => handleStir fs
